@@ -480,16 +480,15 @@ def optsOf (σ : Schema) (w : List WVal) : Dict :=
   | some i => (w.getD i .null).entries
   | none => []
 
-/-- positional checks, in order; an optional trailing position that is absent is skipped -/
-def parsePos (O : Oracles) (w : List WVal) : (i : Nat) → List PosStep → Except Err Msg
-  | _, [] => pure []
-  | i, p :: ps =>
-      match w[i]? with
-      | none => parsePos O w (i + 1) ps          -- only the optional trailing dictionary can be absent
-      | some v => do
-          let r ← p.parse O w v
-          let rest ← parsePos O w (i + 1) ps
-          pure (match r with | some fv => fv :: rest | none => rest)
+/-- positional checks, in order, over `wmsg[1:]`; a position beyond the end of the message is skipped: after the
+length check that can only be the optional trailing options dictionary (UNSUBSCRIBE, UNSUBSCRIBED, …) -/
+def parsePos (O : Oracles) (w : List WVal) : List PosStep → List WVal → Except Err Msg
+  | [], _ => pure []
+  | _ :: ps, [] => parsePos O w ps []
+  | p :: ps, v :: vs => do
+      let r ← p.parse O w v
+      let rest ← parsePos O w ps vs
+      pure (match r with | some fv => fv :: rest | none => rest)
 
 def parseOpts (O : Oracles) (d : Dict) : List OptStep → Except Err Msg
   | [] => pure []
@@ -517,7 +516,7 @@ def kwargsCheck (m : Msg) : Except Err Unit :=
 /-- `Klass.parse(wmsg)` for a `wmsg` whose first element is the class's type code -/
 def parse (σ : Schema) (O : Oracles) (w : List WVal) : Except Err Msg := do
   if !(σ.lengths.contains w.length) then fail .protocol cs!"length"
-  let pm ← parsePos O w 1 σ.pos
+  let pm ← parsePos O w σ.pos w.tail
   let d := σ.optsOf w
   let tm ← (match σ.tail with
             | some t => parseTail O t σ.k d w
@@ -535,11 +534,12 @@ def parse (σ : Schema) (O : Oracles) (w : List WVal) : Except Err Msg := do
 def marshalOpt (m : Msg) (s : OptStep) : Dict :=
   if s.mm.emits (m.get s.field) (m.get s.mm.guard) then [(s.key, s.ty.encode (m.get s.field))] else []
 
+def encEntry (m : Msg) (f : Str) : Dict := if (m.get f).isNull then [] else [(f, m.get f)]
+
 /-- `enc_*` go into the options only together with a (truthy) payload, each `if … is not None` -/
 def marshalEnc (m : Msg) : Dict :=
   if (m.get cs!"payload").truthy then
-    [cs!"enc_algo", cs!"enc_key", cs!"enc_serializer"].filterMap
-      (fun f => if (m.get f).isNull then none else some (f, m.get f))
+    encEntry m cs!"enc_algo" ++ (encEntry m cs!"enc_key" ++ encEntry m cs!"enc_serializer")
   else []
 
 def marshalDict (σ : Schema) (m : Msg) : Dict :=
